@@ -39,6 +39,10 @@
 //     dns.Msg, caches, …) is abstract: parameters of such types are dropped and
 //     an expression that reads from them (`req.Question[0].Qtype`) becomes an
 //     extra parameter `e<k>_<name>` holding its value;
+//   - `v := <ident or selector>` / `v := f(…)` for a `v` of abstract type
+//     (`hdr := r.Header`, `ctx := r.Context()`) drops the binding; the call is
+//     still an effect: dropped when listed under "ignore"/"pure", recorded in
+//     the trace when "trace" is set, a translation error otherwise;
 //   - []error literals, append on them and errors.Join are lists of optional
 //     texts and "first non-nil" (errors.Join is non-nil iff an element is);
 //   - any other call is *opaque*: its result becomes an extra parameter of the
@@ -1504,6 +1508,26 @@ func (c *fctx) assignStmt(x *ast.AssignStmt, rest []ast.Stmt) string {
 		be := &ast.BinaryExpr{X: x.Lhs[0], Op: op, Y: x.Rhs[0]}
 		c.p.info.Types[be] = types.TypeAndValue{Type: c.typeOf(x.Lhs[0])}
 		return c.assign(x.Lhs[0], c.expr(be), rest, nil)
+	}
+	if len(x.Lhs) == 1 && len(x.Rhs) == 1 {
+		// a variable of abstract type: the binding is dropped; a call on the
+		// right-hand side remains an effect (ignored, pure or traced)
+		if id, ok := x.Lhs[0].(*ast.Ident); ok && id.Name != "_" {
+			if lt := c.lhsType(id); lt != nil && c.t.leanType(lt) == "" {
+				switch r := ast.Unparen(x.Rhs[0]).(type) {
+				case *ast.Ident, *ast.SelectorExpr:
+					return c.stmts(rest)
+				case *ast.CallExpr:
+					if c.matches(c.spec.Ignore, r) || c.matches(c.spec.Pure, r) {
+						return c.stmts(rest)
+					}
+					if c.trace {
+						return "let tr := tr ++ [" + c.traceEntry(r) + "]\n" + c.stmts(rest)
+					}
+				}
+				fail("assignment %s to a variable of abstract type", c.show(x))
+			}
+		}
 	}
 	if len(x.Lhs) == len(x.Rhs) {
 		if len(x.Lhs) == 1 {
